@@ -79,7 +79,7 @@ def fragQuote(fragment: Fragment) -> List[Fragment]:
         # Check if quote is escaped.
         if match[0].startswith('\\'):
             # Restart search after escaped opening quote.
-            nextIndex += match.start() + len(quote) + 1
+            nextIndex = match.start() + len(quote) + 1
             continue
         startIndex = match.start()
         nextIndex = match.end()
